@@ -10,7 +10,7 @@ from . import core
 from . import format_common as F
 from .core import Check, exc_code, h63_list
 
-IMPORTS = ["Base.Prelude", "Psd.Codec", "Psd.Model", "Psd.Leaf", "Psd.Descriptor", "Psd.Effects", "Psd.Patterns", "Psd.Corr"]
+IMPORTS = ["Base.Prelude", "Psd.Codec", "Psd.Model", "Psd.Leaf", "Psd.Descriptor", "Psd.Effects", "Psd.Patterns", "Psd.Struct", "Psd.Adjust", "Psd.Vector", "Psd.Corr"]
 KINDS = ["header", "cmd", "res", "resources", "tb", "tbs", "mask", "ranges", "rec", "li", "glmi", "lami", "img", "psd"]
 FIXTURES = os.path.join(core.REPO, "tests", "psd_files")
 
@@ -192,6 +192,87 @@ def dblock_outcome(ck, d, two, pad, terms):
         ck.fail("descriptor-block-roundtrip", {"dval": jdeep(d), "padding": pad, "two": two}, "re-read != original or re-write differs",
                 "X.frombytes(x.tobytes()) == x")
     return out + [0, h63_list(0, cy), int(cy == want), grown, int(F.wf_dval(d))]
+
+
+def BaseElement_traverse(doc, classes):
+    from psd_tools.psd.base import BaseElement
+
+    return BaseElement._traverse(doc, lambda e: isinstance(e, classes))
+
+
+def color_lookup_outcome(ck, d, pad):
+    """ColorLookup(version=1, data_version=16) around a Descriptor body; outcome as Corr.color_lookup_outcome"""
+    from psd_tools.psd import descriptor as D
+    from psd_tools.psd.adjustments import ColorLookup
+
+    body = F.obj_dval(d)
+    blk = ColorLookup(version=1, data_version=16, items=list(body.items()), name=body.name, classID=body.classID)
+    t0 = set(D._TERMS)
+    f = io.BytesIO()
+    try:
+        n = blk.write(f, padding=pad)
+    except Exception as e:
+        return [exc_code(e)]
+    b = f.getvalue()
+    out = [0, n, h63_list(0, list(b))]
+    try:
+        y = ColorLookup.frombytes(b)
+    except Exception as e:
+        D._TERMS.clear()
+        D._TERMS.update(t0)
+        return out + [exc_code(e)]
+    grown = len(D._TERMS) - len(t0)
+    D._TERMS.clear()
+    D._TERMS.update(t0)
+    cy = [y.version, y.data_version] + F.c_dval_o_as_desc(y)
+    want = [1, 16] + F.c_dval_d(d)
+    try:
+        stable = (y == blk and y.tobytes(padding=pad) == b and n == len(b))
+    except Exception:
+        stable = False
+    if F.wf_dval(d) and not (stable and cy == want):
+        ck.fail("color-lookup-roundtrip", {"dval": jdeep(d), "padding": pad}, "re-read != original or re-write differs",
+                "X.frombytes(x.tobytes()) == x")
+    return out + [0, h63_list(0, cy), int(cy == want), grown]
+
+
+def vscg_outcome(ck, key, ver, d, pad):
+    """VectorStrokeContentSetting(key, version) around a Descriptor body; outcome as Corr.vscg_outcome"""
+    from psd_tools.psd import descriptor as D
+    from psd_tools.psd.vector import VectorStrokeContentSetting as VS
+
+    body = F.obj_dval(d)
+    try:
+        blk = VS(key=F.kb(key) if not isinstance(key, bytes) else key, version=ver, items=list(body.items()), name=body.name, classID=body.classID)
+    except Exception:
+        return None
+    t0 = set(D._TERMS)
+    f = io.BytesIO()
+    try:
+        n = blk.write(f, padding=pad)
+    except Exception as e:
+        return [exc_code(e)]
+    b = f.getvalue()
+    out = [0, n, h63_list(0, list(b))]
+    try:
+        y = VS.frombytes(b)
+    except Exception as e:
+        D._TERMS.clear()
+        D._TERMS.update(t0)
+        return out + [exc_code(e)]
+    grown = len(D._TERMS) - len(t0)
+    D._TERMS.clear()
+    D._TERMS.update(t0)
+    cy = [F.fcc(y.key), y.version] + F.c_dval_o_as_desc(y)
+    want = [F.fcc(blk.key), ver] + F.c_dval_d(d)
+    try:
+        stable = (y == blk and y.tobytes(padding=pad) == b and n == len(b))
+    except Exception:
+        stable = False
+    if F.wf_dval(d) and not (stable and cy == want):
+        ck.fail("vector-stroke-content-roundtrip", {"dval": jdeep(d), "key": F.fcc(blk.key), "version": ver, "padding": pad},
+                "re-read != original or re-write differs", "X.frombytes(x.tobytes()) == x")
+    return out + [0, h63_list(0, cy), int(cy == want), grown]
 
 
 def jleaf(l):
@@ -758,6 +839,178 @@ def run():
             ck.fail("roundtrip-psd-lr16", jcase(case), "raised %r" % r["err"] if r["stage"] else "re-read != original or re-write differs",
                     "X.frombytes(x.tobytes()) == x", lr=True)
 
+    # ---- (a8) Stage 3 (1): adjustment payloads - generated (boundary values included), the hand-built boundary instances,
+    #      and every adjustment object found in the fixtures
+    from psd_tools.psd import adjustments as _A
+    import attr as _attr
+
+    code = {"BrightnessContrast": 1, "ColorBalance": 2, "Exposure": 3, "HueSaturation": 4, "SelectiveColor": 5, "PhotoFilter": 6,
+            "ChannelMixer": 7, "Levels": 8, "Curves": 9, "GradientMap": 10, "ColorLookup": 11}
+    from psd_tools.psd import tagged_blocks as _T
+    ak = sorted((F.fcc(k.value), code[c.__name__]) for k, c in _T.TYPES.items()
+                if c.__module__.endswith("adjustments") and c.__name__ in code)
+    gm = sorted(F.fcc(F.kb(o)) for o in {a.name: a for a in _attr.fields(_A.GradientMap)}["method"].validator.options)
+    try:
+        ck.coq_eval("Gen_AdjustTables", "From Coq Require Import ZArith List.\nImport ListNotations.\nOpen Scope Z_scope.\n"
+                    "Lemma gen_adjust_keys_agree : %s = model_adjust_keys. Proof. vm_compute. reflexivity. Qed.\n"
+                    "Lemma gen_gradient_methods_agree : %s = model_gradient_methods. Proof. vm_compute. reflexivity. Qed.\n"
+                    % ("[" + ";".join("((%d)%%Z, (%d)%%Z)" % x for x in ak) + "]", "[" + ";".join("(%d)%%Z" % x for x in gm) + "]"),
+                    ["Psd.Model", "Psd.Struct", "Psd.Adjust"], timeout=300)
+        ck.obligations.append(("generated-adjustment-tables-agree", True, ""))
+    except Exception as e:
+        ck.obligations.append(("generated-adjustment-tables-agree", False, str(e)[-500:]))
+    acases = []
+
+    def one_adj(a, pad, origin):
+        out, info = F.run_adj(a, pad, exc_code)
+        if out is None:
+            ck.count("adj-not-constructible")
+            return
+        acases.append(((pad, a), out))
+        ck.count("adj:%s:%s" % (origin, a[1] if a[0] == "struct" else a[0]))
+        if info["stage"] == "write":
+            return
+        ck.nontriv(("adj", h63_list(0, list(info["bytes"]))))
+        if info["written"] != len(info["bytes"]):
+            ck.fail("written-count-adjustment", {"adj": jdeep(a)}, info["written"], len(info["bytes"]))
+        if F.wf_adj(a):
+            if info["stage"] == "read" or not (info["eq"] and info["same_canon"]):
+                ck.fail("adjustment-roundtrip", {"adj": jdeep(a), "padding": pad},
+                        "raised %r" % info["err"] if info["stage"] else "re-read != original", "X.frombytes(x.tobytes()) == x")
+            elif not info["rewrite_same"]:
+                ck.fail("adjustment-rewrite", {"adj": jdeep(a), "padding": pad}, "re-written bytes differ", "identical bytes")
+
+    for i in range(8000 if thorough else 900):
+        one_adj(F.g_adj(rng), [1, 2, 4][i % 3], "generated")
+    adj_classes = tuple(getattr(_A, n) for n in code if n != "ColorLookup")
+    for label, obj in F.boundary_payloads():
+        if isinstance(obj, adj_classes):
+            one_adj(F.adj_of_obj(obj), 4, "boundary")
+    nfa = 0
+    for pth in fixture_paths(1 << 40 if thorough else 300000):
+        try:
+            doc = PSD.frombytes(open(pth, "rb").read())
+        except Exception:
+            continue
+        for x in BaseElement_traverse(doc, adj_classes):
+            if nfa < (2000 if thorough else 150):
+                one_adj(F.adj_of_obj(x), [4, 1][nfa % 2], "fixture")
+                nfa += 1
+    bad = ck.correspond("adjustments", "adj_outcome", IMPORTS, acases, lambda c: "(%d, %s)" % (c[0], F.coq_adj(c[1])), chunk=80)
+    for i in bad[:5]:
+        ck.notes.append("adjustment model/implementation differ on %r: impl %r" % (acases[i][0], acases[i][1]))
+    # ColorLookup: "HI" header + descriptor body
+    clcases = []
+    terms_cl, units_cl = F.descriptor_env()          # the live term set now (fixtures read above may have added keys)
+    cu_cl, ct_cl = F.coq_env(terms_cl, units_cl)
+    for i in range(300 if thorough else 40):
+        d = F.g_dval(rng, terms_cl, units_cl, kinds=["desc"])
+        d[1] = F.OSC["Objc"]
+        pad = [1, 2, 4][i % 3]
+        co = color_lookup_outcome(ck, d, pad)
+        if co is not None:
+            clcases.append(((pad, 1, 16, d), co))
+    fn = "let units := %s in let terms := %s in color_lookup_outcome units terms" % (cu_cl, ct_cl)
+    bad = ck.correspond("color_lookup", fn, IMPORTS, clcases, lambda a: "(%d, %d, %d, %s)" % (a[0], a[1], a[2], F.coq_dval(a[3])), chunk=40)
+    for i in bad[:5]:
+        ck.notes.append("ColorLookup model/implementation differ: impl %r" % (clcases[i][1],))
+
+    # ---- (a9) Stage 3 (2): vector paths - VectorMaskSetting (all record types, knots inside sub-paths), VectorStrokeContentSetting
+    from psd_tools.psd import vector as _V
+    from psd_tools.constants import PathResourceID as _PR
+
+    sels = sorted(int(x) for x in _PR)
+    knots = sorted(int(k) for k, c in _V.TYPES.items() if issubclass(c, _V.Knot))
+    subs = sorted(int(k) for k, c in _V.TYPES.items() if issubclass(c, _V.Subpath))
+    zl = lambda l: "[" + ";".join("(%d)%%Z" % x for x in l) + "]"
+    try:
+        ck.coq_eval("Gen_VectorTables", "From Coq Require Import ZArith List.\nImport ListNotations.\nOpen Scope Z_scope.\n"
+                    "Lemma gen_path_selectors_agree : %s = model_path_selectors. Proof. vm_compute. reflexivity. Qed.\n"
+                    "Lemma gen_knot_selectors_agree : forallb (fun s => Bool.eqb (is_knot_sel s) (memz s %s)) model_path_selectors = true. Proof. vm_compute. reflexivity. Qed.\n"
+                    "Lemma gen_subpath_selectors_agree : forallb (fun s => Bool.eqb (is_sub_sel s) (memz s %s)) model_path_selectors = true. Proof. vm_compute. reflexivity. Qed.\n"
+                    % (zl(sels), zl(knots), zl(subs)), ["Base.Prelude", "Psd.Codec", "Psd.Model", "Psd.Struct", "Psd.Vector"], timeout=300)
+        ck.obligations.append(("generated-vector-tables-agree", True, ""))
+    except Exception as e:
+        ck.obligations.append(("generated-vector-tables-agree", False, str(e)[-500:]))
+    vcases = []
+
+    def one_vmask(v, origin):
+        out, info = F.run_vmask(v, exc_code)
+        if out is None:
+            ck.count("vmask-not-constructible")
+            return
+        vcases.append((v, out))
+        ck.count("vmask:%s" % origin)
+        if info["stage"] == "write":
+            return
+        ck.nontriv(("vmask", h63_list(0, list(info["bytes"]))))
+        if info["written"] != len(info["bytes"]):
+            ck.fail("written-count-vector-mask", {"vmask": jdeep(v)}, info["written"], len(info["bytes"]))
+        if F.wf_vmask(v):
+            if info["stage"] == "read" or not (info["eq"] and info["same_canon"]):
+                ck.fail("vector-mask-roundtrip", {"vmask": jdeep(v)},
+                        "raised %r" % info["err"] if info["stage"] else "re-read != original", "X.frombytes(x.tobytes()) == x")
+            elif not info["rewrite_same"]:
+                ck.fail("vector-mask-rewrite", {"vmask": jdeep(v)}, "re-written bytes differ", "identical bytes")
+
+    for i in range(4000 if thorough else 500):
+        one_vmask(F.g_vmask(rng), "generated")
+    for label, obj in F.boundary_payloads():
+        if isinstance(obj, _V.VectorMaskSetting):
+            try:
+                one_vmask(F.vmask_of_obj(obj), "boundary")
+            except KeyError:
+                ck.count("vmask:boundary:outside-model")
+    nfv = 0
+    vs_fix = []
+    for pth in fixture_paths(1 << 40 if thorough else 300000):
+        try:
+            doc = PSD.frombytes(open(pth, "rb").read())
+        except Exception:
+            continue
+        for x in BaseElement_traverse(doc, (_V.VectorMaskSetting, _V.VectorStrokeContentSetting)):
+            if isinstance(x, _V.VectorStrokeContentSetting):
+                vs_fix.append(x)
+                continue
+            try:
+                v = F.vmask_of_obj(x)
+            except KeyError:
+                ck.count("vmask:fixture:outside-model")
+                continue
+            if nfv < (2000 if thorough else 120):
+                one_vmask(v, "fixture")
+                nfv += 1
+    bad = ck.correspond("vector_masks", "vmask_outcome", IMPORTS, vcases, F.coq_vmask, chunk=80)
+    for i in bad[:5]:
+        ck.notes.append("vector mask model/implementation differ on %r: impl %r" % (vcases[i][0], vcases[i][1]))
+    vscases = []
+    terms_vs, units_vs = F.descriptor_env()
+    cu_vs, ct_vs = F.coq_env(terms_vs, units_vs)
+    for i in range(300 if thorough else 40):
+        d = F.g_dval(rng, terms_vs, units_vs, kinds=["desc"])
+        d[1] = F.OSC["Objc"]
+        pad = [1, 2, 4][i % 3]
+        key = rng.choice([0, F.fcc(b"SoCo"), F.fcc(b"GdFl"), F.fcc(b"PtFl"), 0xFFFFFFFF])
+        ver = rng.choice([0, 1, 1, 16, 0xFFFFFFFF])
+        co = vscg_outcome(ck, key.to_bytes(4, "big"), ver, d, pad)
+        if co is not None:
+            vscases.append(((pad, key, ver, d), co))
+            ck.count("vscg:generated")
+    for n, x in enumerate(vs_fix[:(400 if thorough else 30)]):
+        try:
+            d = F.dval_of_obj(x)
+        except Exception:
+            ck.count("vscg:fixture:outside-model")
+            continue
+        co = vscg_outcome(ck, x.key, x.version, d, [4, 1][n % 2])
+        if co is not None:
+            vscases.append((([4, 1][n % 2], F.fcc(x.key), x.version, d), co))
+            ck.count("vscg:fixture")
+    fn = "let units := %s in let terms := %s in vscg_outcome units terms" % (cu_vs, ct_vs)
+    bad = ck.correspond("vector_stroke_content", fn, IMPORTS, vscases, lambda a: "(%d, %d, %d, %s)" % (a[0], a[1], a[2], F.coq_dval(a[3])), chunk=40)
+    for i in bad[:5]:
+        ck.notes.append("VectorStrokeContentSetting model/implementation differ: impl %r" % (vscases[i][1],))
+
     # ---- (b) fixtures: implementation reads and re-writes; the model reads the same bytes
     from psd_tools.psd import PSD
 
@@ -890,6 +1143,13 @@ def run():
                 "Identifier", "Index", "Enumerated", "RawData", "Alias", "Path", "Name", "DescriptorBlock", "DescriptorBlock2",
                 # effects layer (Psd/Effects.v)
                 "EffectsLayer", "CommonStateInfo", "ShadowInfo", "OuterGlowInfo", "InnerGlowInfo", "BevelInfo", "SolidFillInfo",
+                # adjustments (Psd/Adjust.v)
+                "BrightnessContrast", "ColorBalance", "Exposure", "HueSaturation", "SelectiveColor", "PhotoFilter", "ChannelMixer",
+                "Levels", "LevelRecord", "Curves", "CurvesExtraMarker", "CurvesExtraItem", "GradientMap", "ColorStop",
+                "TransparencyStop", "ColorLookup",
+                # vector paths (Psd/Vector.v)
+                "VectorMaskSetting", "Subpath", "ClosedPath", "OpenPath", "Knot", "ClosedKnotLinked", "ClosedKnotUnlinked",
+                "OpenKnotLinked", "OpenKnotUnlinked", "PathFillRule", "ClipboardRecord", "InitialFillRule", "VectorStrokeContentSetting",
                 # patterns (Psd/Patterns.v)
                 "Patterns", "Pattern", "VirtualMemoryArrayList", "VirtualMemoryArray"]
     all_classes = all_element_classes()
